@@ -28,7 +28,15 @@ CLAIM = dict(
     "scaling != 0, translation/scaling act as documented (distances scale by sigma). Warp over Q for every shape, voxel "
     "size, origin and destination voxel: identity map => identical array, whole-voxel translation => zero-filled shift "
     "(also larger than the image) in coordinate / voxel / voxel-centre mode (2-D and 3-D), quarter turn => rot90 "
-    "(2-D, coordinate and voxel-centre mode), destination metadata. The voxel-centre shift needs floor rounding in the point "
+    "(2-D, coordinate and voxel-centre mode; 3-D about each axis in voxel-centre mode: warp_quarter_turn_3d; RotationCorrection's own "
+    "clip/astype(int) warp: rotcorr_quarter_turn_2d/3d), destination metadata. Voxel-mode quarter turn: the exact model IS rot90 "
+    "(warp_quarter_turn_voxel_exact) and every pre-image lies ON a rounding breakpoint where an arbitrarily small perturbation moves "
+    "the source voxel (quarter_turn_voxel_on_breakpoint), whereas in voxel-centre mode all pre-images are half-integers and any "
+    "perturbation < 1/2 is harmless (quarter_turn_center_robust); general guard floor_stable_of_fracDist. GeneralizedPerspectiveTransformation.inverse_array (perspective division, bulge and "
+    "stretch polynomials as coded) over any field: gp_identity, gp_translation, gp_affine_reduction, gp_affine_eq_affine_inverse "
+    "(= AffineTransformation.inverse_array), gp_affine_invertible (explicit inverse for det A != 0), gp_perspective_division, "
+    "gp_bulge_fixes_centre_and_boundary, gp_no_bulge_no_stretch; tied on dyadic parameters (exact without perspective division, "
+    "1e-11 with). The voxel-centre shift needs floor rounding in the point "
     "constructors: the rounding is re-tabulated from the running constructors on every run (currently floor, so the shift theorem "
     "holds in all three modes for the code as it is); for astype(int) truncation the negation is proved by witness.",
     note="scipy from_rotvec matrices, numpy fancy assignment and float rounding are tied by correspondence (1e-12 / exact on "
@@ -340,6 +348,80 @@ def corr_warps(ctx, d, rnd_name):
     return d1 + d2
 
 
+
+def corr_genperspective(ctx, d):
+    """GeneralizedPerspectiveTransformation.inverse_array with parameters set directly (set_parameters_as_vector + the image
+    box attributes that `fit` derives from the destination system); dyadic parameters and points."""
+    rng = ctx.rng
+    ex_lines, ex_impl, tl_lines, tl_vals = [], [], [], []
+    for i in range(ctx.pick(40, 500)):
+        kind = ("identity", "translation", "affine", "perspective", "full", "full-voxelbox")[i % 6]
+        q = lambda lo=-8, hi=8, m=4: Fr(rng.randint(lo, hi), m)  # noqa: E731
+        A = [Fr(1), Fr(0), Fr(0), Fr(1)]
+        b, c = [Fr(0), Fr(0)], [Fr(0), Fr(0)]
+        sf, so, bf, bo = ([Fr(0), Fr(0)] for _ in range(4))
+        if kind != "identity":
+            b = [q(), q()]
+        if kind in ("affine", "perspective", "full", "full-voxelbox"):
+            A = [Fr(1) + q(-2, 2), q(-2, 2), q(-2, 2), Fr(1) + q(-2, 2)]
+        if kind in ("perspective", "full", "full-voxelbox"):
+            c = [Fr(rng.randint(-2, 2), 16), Fr(rng.randint(-2, 2), 16)]
+        if kind in ("full", "full-voxelbox"):
+            sf, bf = [q(-2, 2, 8), q(-2, 2, 8)], [q(-2, 2, 8), q(-2, 2, 8)]
+            so, bo = [q(-2, 2, 2), q(-2, 2, 2)], [q(-2, 2, 2), q(-2, 2, 2)]
+        if kind == "full-voxelbox":
+            mx, mn = [Fr(rng.randint(2, 8)), Fr(rng.randint(2, 8))], [Fr(0), Fr(0)]
+        else:
+            mn = [q(-8, 0, 2), q(-8, 0, 2)]
+            mx = [mn[0] + Fr(rng.randint(1, 12), 2), mn[1] + Fr(rng.randint(1, 12), 2)]
+        ce = [(mx[0] + mn[0]) / 2, (mx[1] + mn[1]) / 2]
+        n = rng.randint(1, 4)
+        pts = [[q(-12, 12, 2), q(-12, 12, 2)] for _ in range(n)]
+        single = i % 7 == 3
+        if single:
+            pts = pts[:1]
+        params = A + b + c + sf + so + bf + bo
+        line = ("gp " + " ".join(fmt(x) for x in params) + " " + " ".join(fmt(x) for x in ce + mx + mn) + f" {len(pts)} "
+                + " ".join(fmt(x) for p in pts for x in p))
+
+        def run():
+            T = d.GeneralizedPerspectiveTransformation()
+            nparam = 16 if kind.startswith("full") else (8 if i % 2 else 16)
+            T.set_parameters_as_vector(np.array([float(x) for x in params[:nparam]]))
+            T.max_coordinate = np.array([float(x) for x in mx])
+            T.min_coordinate = np.array([float(x) for x in mn])
+            T.center = 0.5 * (T.max_coordinate + T.min_coordinate)
+            x = np.array([[float(v) for v in p] for p in pts])
+            if np.any(x @ np.array([float(v) for v in c]) + 1 == 0):
+                return "!div0"
+            if single:
+                pt = d.make_coordinate(np.zeros((2, 2)))
+                T.set_dtype(pt, pt)
+                y = T.inverse(d.make_coordinate(x[0]))
+                if not isinstance(y, d.Coordinate) or np.asarray(y).shape != (2,):
+                    raise TypeError("single typed point in, something else out")
+                return np.asarray(y, float).ravel()
+            return np.asarray(T.inverse_array(x), float).ravel()
+
+        r = call(run)
+        exact = all(v == 0 for v in c)
+        if exact:
+            ex_lines.append(line)
+            ex_impl.append(repr(r) if isinstance(r, Raised) else r if isinstance(r, str) else " ".join(fmt(v) for v in r))
+        else:
+            tl_lines.append(line)
+            tl_vals.append(r if isinstance(r, Raised) else Raised(ZeroDivisionError()) if isinstance(r, str) else list(r))
+    ctx.correspond("GeneralizedPerspective.inverse_array (no perspective division, dyadic: exact)", ex_lines, ex_impl)
+    # with perspective division: rational model vs float, 1e-12 relative
+    tl_lines2, tl_vals2 = [], []
+    for l, v in zip(tl_lines, tl_vals):
+        if isinstance(v, Raised):
+            continue
+        tl_lines2.append(l)
+        tl_vals2.append(v)
+    correspond_tol(ctx, "GeneralizedPerspective.inverse_array (perspective division, bulge, stretch: 1e-11)", tl_lines2, tl_vals2, tol=1e-11)
+
+
 # ---------------------------------------------------------------------------- property oracle (implementation only)
 
 
@@ -492,6 +574,47 @@ def check_warp_case(ctx, d, case):
         if out.shape != exp.shape or not np.array_equal(out, exp):
             bad.append((f"C09:warp(quarter-turn,mode={mode}):not-rot90",
                         f"quarter turn ({'+' if sgn > 0 else '-'}pi/2) of shape {shape} in {mode} mode is not np.rot90"))
+    elif kind == "quarter3":
+        # 3-D quarter turn about matrix axis `axis` in voxel-centre mode (robust: pre-images are half-integers)
+        axis = case["axis"]
+        n0, n1, n2 = shape
+        dshape = {0: (n0, n2, n1), 1: (n2, n1, n0), 2: (n1, n0, n2)}[axis]
+        dh = {0: [h[0], h[2], h[1]], 1: [h[2], h[1], h[0]], 2: [h[1], h[0], h[2]]}[axis]
+        dst = call(mk_image, d, dshape, dh, None)
+        if isinstance(dst, Raised):
+            return [("C09:Image:raises", f"{dst}")]
+        t = {0: [0, n2, 0], 1: [0, 0, n0], 2: [n1, 0, 0]}[axis]
+        angles = [0.0, 0.0, 0.0]
+        angles[axis] = math.pi / 2
+        out = call(warp_impl, d, "center", src, dst, t, 1.0, angles, arr.copy())
+        exp = np.rot90(arr, 1, axes={0: (1, 2), 1: (2, 0), 2: (0, 1)}[axis])
+        if isinstance(out, Raised):
+            return [(f"C09:warp(quarter-turn-3d,axis={axis}):raises", f"{out}")]
+        if out.shape != exp.shape or not np.array_equal(out, exp):
+            bad.append((f"C09:warp(quarter-turn-3d,axis={axis},mode=center):not-rot90",
+                        f"+pi/2 about matrix axis {axis} of shape {shape} in voxel-centre mode is not np.rot90 in the plane"))
+    elif kind == "quarter-exact":
+        # Voxel-typed quarter turn with EXACT matrices set on the transformation: no float noise, must be rot90
+        sgn = case["sign"]
+        n0, n1 = shape
+        dst = call(mk_image, d, (n1, n0), [h[1], h[0]], None)
+        if isinstance(dst, Raised):
+            return [("C09:Image:raises", f"{dst}")]
+
+        def run():
+            T = mk_T(d, 2, "voxel", [n1 - 1, 0] if sgn > 0 else [0, n0 - 1], 1.0, [0.0])
+            T.rotation = np.array([[0.0, -1.0], [1.0, 0.0]]) * sgn
+            T.rotation_inv = np.array([[0.0, 1.0], [-1.0, 0.0]]) * sgn
+            C = d.TransformationCorrection(src.coordinatesystem, dst.coordinatesystem, T)
+            return C.correct_array(arr.copy())
+
+        out = call(run)
+        exp = np.rot90(arr, 1 if sgn > 0 else 3, axes=(0, 1))
+        if isinstance(out, Raised):
+            return [("C09:warp(quarter-turn,mode=voxel,exact-matrix):raises", f"{out}")]
+        if out.shape != exp.shape or not np.array_equal(out, exp):
+            bad.append(("C09:warp(quarter-turn,mode=voxel,exact-matrix):not-rot90",
+                        f"Voxel-typed quarter turn with exact integer matrices of shape {shape} is not np.rot90"))
     elif kind == "coordtransf":
         k = case["k"]
         dshape, dh, dorigin = tuple(case["dshape"]), [Fr(x) for x in case["dh"]], case.get("dorigin")
@@ -540,6 +663,77 @@ def check_warp_case(ctx, d, case):
                     exp[i, j] = arr[si, sj]
         if res.img.shape != exp.shape or not np.array_equal(res.img, exp):
             bad.append(("C09:CoordinateTransformation:wrong-array", f"voxel shift {k} from {shape} onto {dshape}: array differs"))
+    return bad
+
+
+def mk_gp(d, params, mx, mn, mode=None):
+    T = d.GeneralizedPerspectiveTransformation()
+    T.set_parameters_as_vector(np.array([float(x) for x in params]))
+    T.max_coordinate = np.array([float(x) for x in mx])
+    T.min_coordinate = np.array([float(x) for x in mn])
+    T.center = 0.5 * (T.max_coordinate + T.min_coordinate)
+    if mode is not None:
+        mkp = {"coord": d.make_coordinate, "voxel": d.make_voxel, "center": d.make_voxel_center}[mode]
+        p = mkp(np.zeros((2, 2)))
+        T.set_dtype(p, p)
+    return T
+
+
+def check_gp_case(ctx, d, case):
+    """special cases of the generalised perspective map that the property fixes: identity, pure translation, affine"""
+    kind = case["kind"]
+    bad = []
+    if kind in ("gp-identity", "gp-translation", "gp-affine"):
+        x = np.array(case["pts"], float)
+        b = np.array(case.get("b", [0, 0]), float)
+        mx, mn = case["max"], case["min"]
+        if kind == "gp-affine":
+            t, sigma, ang = case["t"], case["sigma"], case["angle"]
+            A = call(mk_T, d, 2, "coord", t, sigma, [ang])
+            if isinstance(A, Raised):
+                return [("C09:AffineTransformation(2).set_parameters:raises", f"{A}")]
+            M = np.asarray(A.rotation_inv, float) / sigma
+            bb = -M @ np.array(t, float)
+            params = list(M.ravel()) + list(bb) + [0.0, 0.0] + [0.0] * 8
+            exp = call(A.inverse_array, x)
+        else:
+            params = [1, 0, 0, 1] + list(b) + [0, 0] + [0] * 8
+            exp = x + b
+        T = call(mk_gp, d, params, mx, mn)
+        y = T if isinstance(T, Raised) else call(T.inverse_array, x)
+        if isinstance(y, Raised) or isinstance(exp, Raised):
+            return [(f"C09:GeneralizedPerspective({kind}):raises", f"{y} {exp}")]
+        scale = 1 + float(np.abs(x).max()) + float(np.abs(b).max())
+        tol = 0.0 if kind != "gp-affine" else 1e-10 * scale * max(case["sigma"], 1 / case["sigma"])
+        if np.asarray(y).shape != x.shape or float(np.abs(np.asarray(y) - exp).max()) > tol:
+            bad.append((f"C09:GeneralizedPerspective.inverse_array:{kind}",
+                        f"{kind} parameters: max deviation from the {kind[3:]} map {float(np.abs(np.asarray(y) - exp).max()):.3g}"))
+    elif kind == "gp-warp":
+        shape, k, mode = tuple(case["shape"]), case["k"], case["mode"]
+        h = [Fr(x) for x in case["h"]]
+        arr = payload(shape)
+        src = call(mk_image, d, shape, h, None)
+        if isinstance(src, Raised):
+            return [("C09:Image:raises", f"{src}")]
+        # inverse(x) = x + b pulls destination voxel v back to v + b: a shift by k needs b = -shift_vec(k)
+        b = [-x for x in shift_vec(mode, h, k, 2)]
+        cs = src.coordinatesystem
+        if mode == "coord":
+            mx, mn = [float(v) for v in cs.max_coordinate], [float(v) for v in cs.min_coordinate]
+        else:
+            mx, mn = [float(n) for n in shape], [0.0, 0.0]
+
+        def run():
+            T = mk_gp(d, [1, 0, 0, 1] + [float(x) for x in b] + [0, 0] + [0] * 8, mx, mn, mode)
+            return d.TransformationCorrection(cs, cs, T).correct_array(arr.copy())
+
+        out = call(run)
+        exp = shifted(arr, k, 2)
+        if isinstance(out, Raised):
+            return [(f"C09:GeneralizedPerspective:warp(shift,mode={mode}):raises", f"{out}")]
+        if out.shape != exp.shape or not np.array_equal(out, exp):
+            bad.append((f"C09:GeneralizedPerspective:warp(shift,mode={mode}):wrong-array",
+                        f"generalised perspective map with pure translation {k} voxels on shape {shape} in {mode} mode is not the zero-filled shift"))
     return bad
 
 
@@ -623,6 +817,34 @@ def oracle(ctx, d):
                     dtype=rng.choice(dtypes), trail=rng.choice([[], [3]]))
         ctx.count(("quarter", case["mode"], tuple(shape), case["sign"]), nontrivial=int(np.prod(shape)) > 1)
         report(ctx, check_warp_case(ctx, d, case), case)
+    for i in range(ctx.pick(18, 300)):
+        shape = [rng.choice([1, 2, 3, 4, 5]) for _ in range(3)]
+        case = dict(kind="quarter3", dim=3, mode="center", axis=i % 3, shape=shape, h=[str(Fr(1, rng.choice([1, 2]))) for _ in range(3)],
+                    dtype=rng.choice(dtypes), trail=rng.choice([[], [2]]))
+        ctx.count(("quarter3", i % 3, tuple(shape)), nontrivial=int(np.prod(shape)) > 1)
+        report(ctx, check_warp_case(ctx, d, case), case)
+    for i in range(ctx.pick(12, 200)):
+        shape = [rng.choice([1, 2, 3, 4, 5, 6, 7]) for _ in range(2)]
+        case = dict(kind="quarter-exact", dim=2, mode="voxel", shape=shape, h=["1/2", "1/2"], sign=1 if i % 2 == 0 else -1,
+                    dtype=rng.choice(dtypes), trail=rng.choice([[], [3]]))
+        ctx.count(("quarter-exact", tuple(shape), case["sign"]), nontrivial=int(np.prod(shape)) > 1)
+        report(ctx, check_warp_case(ctx, d, case), case)
+    for i in range(ctx.pick(30, 400)):
+        kind = ("gp-identity", "gp-translation", "gp-affine")[i % 3]
+        mn = [rng.uniform(-5, 0), rng.uniform(-5, 0)]
+        case = dict(kind=kind, pts=[[rng.uniform(-20, 20), rng.uniform(-20, 20)] for _ in range(rng.randint(1, 5))],
+                    b=[rng.uniform(-10, 10), rng.uniform(-10, 10)] if kind == "gp-translation" else [0, 0],
+                    max=[mn[0] + rng.uniform(1, 9), mn[1] + rng.uniform(1, 9)], min=mn,
+                    t=[rng.uniform(-10, 10), rng.uniform(-10, 10)], sigma=math.exp(rng.uniform(math.log(0.1), math.log(10))),
+                    angle=rng.uniform(-math.pi, math.pi))
+        ctx.count((kind, i))
+        report(ctx, check_gp_case(ctx, d, case), case)
+    for i in range(ctx.pick(18, 300)):
+        shape = [rng.choice([1, 2, 3, 4, 5, 6]) for _ in range(2)]
+        case = dict(kind="gp-warp", mode=MODES[i % 3], shape=shape, h=[str(Fr(1, rng.choice([1, 2, 4]))) for _ in range(2)],
+                    k=[0, 0] if i % 5 == 0 else [rng.randint(-n - 1, n + 1) for n in shape])
+        ctx.count(("gp-warp", case["mode"], tuple(shape), tuple(case["k"])), nontrivial=int(np.prod(shape)) > 1)
+        report(ctx, check_gp_case(ctx, d, case), case)
     for i in range(ctx.pick(3, 12)):
         shape = [rng.randint(2, 6), rng.randint(2, 6)]
         dshape = [rng.randint(2, 8), rng.randint(2, 8)]
@@ -649,6 +871,8 @@ def replay(data):
         return 0
     if "rotations" in case:
         bad = check_rotcorr_case(_C(), d, case)
+    elif str(case.get("kind", "")).startswith("gp-"):
+        bad = check_gp_case(_C(), d, case)
     elif "kind" in case:
         bad = check_warp_case(_C(), d, case)
     else:
@@ -669,7 +893,8 @@ def run(ctx):
         data = json.loads(f.read_text())
         case = data.get("replay", {}).get("case", data.get("case"))
         if case:
-            fn = check_rotcorr_case if "rotations" in case else check_warp_case if "kind" in case else check_affine_case
+            fn = (check_rotcorr_case if "rotations" in case else check_gp_case if str(case.get("kind", "")).startswith("gp-")
+                  else check_warp_case if "kind" in case else check_affine_case)
             report(ctx, fn(ctx, d, case), case)
     # (1) G1: rounding of the point constructors
     rnd, rows = tabulate_rounding(d)
@@ -688,6 +913,7 @@ def run(ctx):
     corr_points(ctx, d)
     corr_coordinatesystem(ctx, d)
     corr_warps(ctx, d, rnd_name)
+    corr_genperspective(ctx, d)
     # (4) oracle
     oracle(ctx, d)
 
